@@ -68,6 +68,36 @@ func (m *PushPullManager) VerifRecvRequest() (string, common.Hash128) {
 	return string(r.peer), r.hash.Hash
 }
 
+// VerifFillRequests fills the outgoing pull queue to its capacity with requests for filler hashes (a burst of
+// announcements while the sender lags); VerifDrainRequests empties it in one step. Both use the plain channel:
+// no thread waits on it while they run.
+func (m *PushPullManager) VerifFillRequests() int {
+	n := 0
+	for {
+		select {
+		case m.requests <- pullRequest{peer: "filler", hash: pushPullHash{Type: pushTx, Hash: common.Hash128{0xff, 0xff, byte(n), byte(n >> 8)}}}:
+			n++
+		default:
+			return n
+		}
+	}
+}
+
+func (m *PushPullManager) VerifDrainRequests() (fillers int, others []string) {
+	for {
+		select {
+		case r := <-m.requests:
+			if r.peer == "filler" {
+				fillers++
+			} else {
+				others = append(others, string(r.peer))
+			}
+		default:
+			return
+		}
+	}
+}
+
 // ---- C12: message delivery driver
 
 // verifFeed is the transport of the verification peer: frames are handed over one by one.
